@@ -113,6 +113,11 @@ def run(tier, seed):
     for tail_ in ("ON COMMIT DROP", "ON COMMIT PRESERVE ROWS", "on commit drop"):
         for w in ("TEMP", "TEMPORARY", "GLOBAL TEMPORARY"):
             sup.append(("table kind", f"CREATE {w} TABLE t1 (a int, b varchar(5)) {tail_};\nCREATE TABLE t2 (c int);\n"))
+    # empty statements: a line holding only `;` (first, between statements, last) is supported input too (nothing to parse, nothing to reject)
+    for k_, (lab_, t_) in enumerate(list(sup)):
+        if k_ % 6 == 0 and "\n" in t_.strip() and "'" not in t_ and '"' not in t_:
+            v_ = (";\n" + t_, t_.replace(";\n", ";\n;\n", 1), t_.rstrip("\n") + "\n;\n")[(k_ // 6) % 3]
+            sup.append((lab_ + " + empty statement", v_))
     states += gt.distinct + gr.distinct + ge.distinct + gc.distinct
     trans += gt.generated + gr.generated + ge.generated + gc.generated
     tasks = [(t, {"silent": False}, {}) for _, t in sup] + [(t, {}, {}) for _, t in sup]
